@@ -238,6 +238,76 @@ theorem exactly_once_of_rows (dyn : Q → Bool) (sub : Path → Str → Str) (ro
     (setFacts (gen dyn sub root els)).filter (fun f => decide (f.set.ref = y.1)) = expSetP dyn sub y :=
   exactly_once dyn sub root els y hy (paths_nodup_of_accepted root els hval) (nonEmpty_of_accepted root els hval)
 
+/-! ## the `xls2json` stage in front: a photo's default (`process_image_default`) -/
+
+theorem startsWith_append_self : ∀ (p v : Str), startsWith (p ++ v) p = true
+  | [], v => by cases v <;> simp [startsWith]
+  | a :: as, v => by simp [startsWith, startsWith_append_self as v]
+
+theorem isInfix_append_self (p v : Str) : isInfix p (p ++ v) = true := by
+  cases h : p ++ v with
+  | nil =>
+    have : p = [] := (List.append_eq_nil_iff.1 h).1
+    subst this; simp [isInfix]
+  | cons a as =>
+    simp only [isInfix, Bool.or_eq_true]
+    left; rw [← h]; exact startsWith_append_self p v
+
+/-- the stored default of a photo always mentions `jr://images/` … -/
+theorem processImageDefault_mentions (v : Str) : isInfix imagePrefix (processImageDefault v) = true := by
+  unfold processImageDefault
+  split
+  · assumption
+  · exact isInfix_append_self _ _
+
+/-- … a cell that already does is stored as it is, so the operation is idempotent -/
+theorem processImageDefault_idem (v : Str) : processImageDefault (processImageDefault v) = processImageDefault v := by
+  have h := processImageDefault_mentions v
+  generalize processImageDefault v = w at h ⊢
+  simp [processImageDefault, h]
+
+theorem prepQ_same (d : Q) : (prepQ d).name = d.name ∧ (prepQ d).type = d.type ∧ shown (prepQ d) = shown d ∧
+    (prepQ d).tag = d.tag ∧ (prepQ d).trigger = d.trigger ∧ (prepQ d).calcu = d.calcu := by
+  unfold prepQ
+  split <;> simp [shown, hiddenQ]
+
+/-- `prep` changes no name and no nesting: the shape `Form` sees is that of the cells -/
+theorem shape_prep : ∀ (els : List El), shape (prep els) = shape els
+  | [] => by simp [prep, shape]
+  | .q d :: rest => by
+    obtain ⟨h1, _, h3, h4, _, _⟩ := prepQ_same d
+    simp [prep, shape, h1, h3, h4, shape_prep rest]
+  | .grp n ks :: rest => by simp [prep, shape, shape_prep ks, shape_prep rest]
+  | .rep n ks :: rest => by simp [prep, shape, shape_prep ks, shape_prep rest]
+
+/-- the questions after `prep` are the questions before it with `prepQ` applied, path for path -/
+theorem qwn_prep : ∀ (els : List El) (pre : Path) (near : Option Path),
+    qwn pre near (prep els) = (qwn pre near els).map fun y => (y.1, y.2.1, prepQ y.2.2)
+  | [], _, _ => by simp [prep, qwn]
+  | .q d :: rest, pre, near => by simp [prep, qwn, (prepQ_same d).1, qwn_prep rest pre near]
+  | .grp n ks :: rest, pre, near => by simp [prep, qwn, qwn_prep ks (pre ++ [n]) near, qwn_prep rest pre near]
+  | .rep n ks :: rest, pre, near => by
+    simp [prep, qwn, qwn_prep ks (pre ++ [n]) (some (pre ++ [n])), qwn_prep rest pre near]
+
+/-- **exactly_once from the cells**: for a sheet whose rows parse to the tree's shape and whose tree is accepted,
+    every question `y` of the sheet — with its default as `xls2json` stores it (`prepQ`: a photo's file name
+    prefixed with `jr://images/`) — satisfies the conclusions of `exactly_once` in the output of the mechanism
+    run on the stored tree (`Defaults.runSheet`'s tree `prep els`) -/
+theorem exactly_once_of_cells (dyn : Q → Bool) (sub : Path → Str → Str) (root : Str)
+    (rows : List (Nat × RowK)) (els : List El)
+    (hrows : parseRows rows = .ok (shape els)) (hval : validate17 root (shape els) = .ok ())
+    (y : Path × Option Path × Q) (hy : y ∈ qwn [root] none els) :
+    let y' : Path × Option Path × Q := (y.1, y.2.1, prepQ y.2.2)
+    (∀ l ∈ leaves [] false (gen dyn sub root (prep els)).inst, l.path = y.1 →
+        l.text = (if !y'.2.2.default.isEmpty && !dyn y'.2.2 then y'.2.2.default else [])) ∧
+    (setFacts (gen dyn sub root (prep els))).filter (fun f => decide (f.set.ref = y.1)) = expSetP dyn sub y' := by
+  intro y'
+  have hy' : y' ∈ qwn [root] none (prep els) := by
+    rw [qwn_prep]; exact List.mem_map.2 ⟨y, hy, rfl⟩
+  have h := exactly_once_of_rows dyn sub root rows (prep els) (by rw [shape_prep]; exact hrows)
+    (by rw [shape_prep]; exact hval) y' hy'
+  exact ⟨h.1, h.2.2.2⟩
+
 /-! ### non-vacuity: the example tree of `Pyxv.C10` comes from rows and is accepted -/
 def exRows : List (Nat × RowK) :=
   [(2, .q { name := "a".toList, bind := true, control := true, node := true, tag := "input".toList } none),
@@ -253,5 +323,9 @@ example : parseRows exRows = .ok (shape exTree) := by
 example : validate17 "data".toList (shape exTree) = .ok () := by
   simp [exTree, exB, exC, shape, validate17, validateEach17, validateItem17, liftDup, dupCheck, firstDup,
     firstDupStr, sectionNamesL, sectionNames, Item.name, lowerAscii]
+
+-- a photo question: the stored default is the prefixed file name, which is static (URI_SCHEME, NAME, PATH_SEP, NAME)
+example : (prepQ { name := "p".toList, type := "photo".toList, default := "a.png".toList }).default = "jr://images/a.png".toList
+    ∧ Lexer.dynamicPinned "jr://images/a.png".toList "photo".toList = false := by decide +kernel
 
 end Pyxv.C10
